@@ -301,6 +301,19 @@ func (tr *gtTr) stmt(s ast.Stmt, env *venv, next cont) gnode {
 			if n, ok := tr.mutCall(c, nil, false, env, next); ok {
 				return n
 			}
+			if id, ok := c.Fun.(*ast.Ident); ok && tr.cfg != nil && env.lookup(id.Name) == nil {
+				for _, ig := range tr.cfg.ignore {
+					if ig == id.Name {
+						// a hook that the configuration declares to be outside what is translated (gotrans_apply.go says why)
+						for _, a := range c.Args {
+							if e := tr.expr(a, env); len(e.binds) > 0 {
+								gtFail("call of %s with an argument that can panic", id.Name)
+							}
+						}
+						return next(env)
+					}
+				}
+			}
 			if pkg, name, ok := tr.libCall(c, env); ok && pkg == "log" && (name == "Println" || name == "Printf" || name == "Print") {
 				// the process log is not part of what is modelled; the arguments must be in the subset and total
 				for _, a := range c.Args {
@@ -1038,6 +1051,7 @@ type gtCfg struct {
 	fragVars  [][2]string    // ... with these (name, Go type) as additional parameters
 	suffix    string         // ... under the name src_<pkg>_<name>_<suffix>
 	fuel      map[int]string // loop number (source order, from 1) -> Go expression over what is in scope at the loop: iterations + 1 at most
+	ignore    []string       // calls (as statements) of these package functions are skipped: hooks without a body in the build under check
 	argsOf    string         // fragment: the list of the first arguments of every call of a method of this name, in source order
 }
 
@@ -1072,7 +1086,15 @@ func coqFnName(p *gpkg, key, suffix string) string {
 
 // translate returns the translated function dir:key, translating it (and emitting it before the caller) on first use.
 func (st *gtState) translate(g *gen, dir, key string, caller *gtFn) *gtFn {
+	return st.translateCfg(g, dir, key, st.cfgs[dir+":"+key], caller)
+}
+
+// translateCfg: a fragment (a configuration with a suffix) is a translation unit of its own.
+func (st *gtState) translateCfg(g *gen, dir, key string, cfg *gtCfg, caller *gtFn) *gtFn {
 	full := dir + ":" + key
+	if cfg != nil && cfg.suffix != "" {
+		full += "#" + cfg.suffix
+	}
 	fn := st.fns[full]
 	if fn == nil {
 		fn = &gtFn{key: full, valueParams: map[string]bool{}, preds: map[string]bool{}}
@@ -1097,7 +1119,7 @@ func (st *gtState) translate(g *gen, dir, key string, caller *gtFn) *gtFn {
 				fn.status, fn.err = 3, ge.msg
 			}
 		}()
-		st.translateFn(g, dir, key, fn)
+		st.translateFn(g, dir, key, fn, cfg)
 		fn.status = 2
 	}()
 	if fn.status == 3 {
@@ -1110,7 +1132,7 @@ func (st *gtState) translate(g *gen, dir, key string, caller *gtFn) *gtFn {
 	return fn
 }
 
-func (st *gtState) translateFn(g *gen, dir, key string, fn *gtFn) {
+func (st *gtState) translateFn(g *gen, dir, key string, fn *gtFn, cfg *gtCfg) {
 	p := g.gtPkg(dir)
 	if p.problem != "" {
 		gtFail("package %s: %s", dir, p.problem)
@@ -1125,7 +1147,6 @@ func (st *gtState) translateFn(g *gen, dir, key string, fn *gtFn) {
 	if fd.Type.TypeParams != nil {
 		gtFail("generic function")
 	}
-	cfg := st.cfgs[dir+":"+key]
 	if cfg == nil {
 		cfg = &gtCfg{}
 	}
@@ -1267,13 +1288,20 @@ func (st *gtState) translateFn(g *gen, dir, key string, fn *gtFn) {
 			gtFail("fragment: %d declarations of %s with an initialiser (expected exactly one)", len(inits), cfg.initOf)
 		}
 		fragExpr = inits[0]
+		for _, fv := range cfg.fragVars {
+			addParam(fv[0], g.resolveType(p, f, gtParseExpr(fv[1]), 0))
+		}
 		fn.results = nil
 		sig = append(sig, "[the initialiser of "+cfg.initOf+"]")
 		fragInit = true
 	}
 	// what the function changes of its receiver and arguments
-	{
-		keys, elems, whole := tr.assignedIn([]ast.Node{fd.Body}, env)
+	if !fragInit {
+		var scan []ast.Node
+		for _, st := range body {
+			scan = append(scan, st)
+		}
+		keys, elems, whole := tr.assignedIn(scan, env)
 		for pi, prm := range fn.params {
 			if prm.typ.kind == kStruct {
 				for _, fl := range prm.typ.fields {
@@ -1290,9 +1318,18 @@ func (st *gtState) translateFn(g *gen, dir, key string, fn *gtFn) {
 				continue
 			}
 			k := stKey{prm.goName, ""}
-			if elems[k] {
+			if prm.ptr && keys[k] {
+				// s *T with T a named slice / map: `*s = e` and element assignments both reach the caller
+				if !prm.typ.supported() {
+					gtFail("assignment through %s of type %s", prm.goName, prm.typ.name)
+				}
+				fn.muts = append(fn.muts, gtMut{pi, "", prm.typ})
+			} else if elems[k] {
 				if whole[k] {
 					gtFail("%s is both reassigned and has its elements assigned (aliasing is outside the subset)", prm.goName)
+				}
+				if !prm.typ.supported() {
+					gtFail("assignment to elements of %s of type %s", prm.goName, prm.typ.name)
 				}
 				fn.muts = append(fn.muts, gtMut{pi, "", prm.typ})
 			}
@@ -1658,7 +1695,7 @@ func gtFamily(name string, items []gtItem) {
 			g.js["gotrans"] = js
 		}
 		for _, it := range items {
-			if it.cfg != nil {
+			if it.cfg != nil && it.cfg.suffix == "" {
 				st.cfgs[it.dir+":"+it.key] = it.cfg
 			}
 		}
@@ -1697,9 +1734,12 @@ func gtFamily(name string, items []gtItem) {
 					fn = &gtFn{status: 2, coqName: name}
 					return
 				}
-				fn = st.translate(g, it.dir, it.key, nil)
+				fn = st.translateCfg(g, it.dir, it.key, it.cfg, nil)
 			}()
 			what := it.dir + ":" + it.key
+			if it.cfg != nil && it.cfg.suffix != "" {
+				what += "#" + it.cfg.suffix
+			}
 			if fn.status != 2 {
 				g.fail("gotrans: %s: %s", what, fn.err)
 				js[what] = map[string]interface{}{"family": name, "ok": false, "why": fn.err}
